@@ -530,11 +530,18 @@ func objectEntry(r *Scanner) (stateFn, error) {
 	// value, so any overrun signals a malformed entry. For delta entries
 	// the declared size is the size of the delta instruction stream, not
 	// the resolved object.
-	mw = &boundedWriter{w: mw, limit: oh.Size}
+	bw := &boundedWriter{w: mw, limit: oh.Size}
 
-	_, err = ioutil.CopyBufferPool(mw, zr)
+	_, err = ioutil.CopyBufferPool(bw, zr)
 	if err != nil {
 		return nil, err
+	}
+
+	// The stream must also not end early: canonical Git rejects an entry
+	// that inflates to fewer bytes than its header declares.
+	if bw.n != oh.Size {
+		return nil, fmt.Errorf("%w: object inflated to %d bytes, header declares %d",
+			ErrMalformedPackfile, bw.n, oh.Size)
 	}
 
 	if err := r.Flush(); err != nil {
